@@ -20,7 +20,7 @@ EXPLANATION = (
     "does not prove fidelity.")
 EXTRA_CONFIGS = ["h3-plain"]
 RULES = ("C01-f field mapping: pseudo-header writer/reader tables agree, append not insert, iterator, into_*_parts flows (A11/A4/A3); "
-         "C01-s = C02-a..g; C01-q = C03-body, C03-eob, C03-trl, C03-split; C01-v = C12-a, C12-d, C10-a, C10-b; C01-w = C14-a, C14-b, C14-e; C01-t = C17-a, C17-b "
+         "C01-s = C02-a..g; C01-q = C03-body, C03-eob, C03-trl, C03-split; C01-v = C12-a, C12-d, C10-a, C10-b, C11-f, C15-c; C01-s also = C06-b on the frame/stream/adapter functions; C01-w = C14-a, C14-b, C14-e; C01-t = C17-a, C17-b "
          "(re-used through a filtering proxy)")
 
 META = {
@@ -156,3 +156,9 @@ def run(ctx):
     _c10.run(Proxy(ctx, ("C10-a", "C10-b"), "C01-v"))       # sender and receiver account for and compare the section size alike
     _c14.run(Proxy(ctx, ("C14-a", "C14-b", "C14-e"), "C01-w", exclude=("h3_datagram",)))     # datagrams are not messages
     _c17.run(Proxy(ctx, ("C17-a", "C17-b"), "C01-t"))
+    from rules import C06 as _c06, C11 as _c11, C15 as _c15
+    # a body or field section that is buffered but never handed over is not delivered: the Pending-implies-registered rule on the
+    # functions a message passes through; and the field-section codec clauses on the encoder side (what is written is what was given)
+    _c06.run(Proxy(ctx, ("C06-b",), "C01-s", only=("h3::frame::", "h3::stream::", "h3::connection::RequestStream", "h3::client::stream", "h3::server::stream", "h3_quinn::")))
+    _c11.run(Proxy(ctx, ("C11-f",), "C01-v"))
+    _c15.run(Proxy(ctx, ("C15-c",), "C01-v"))
